@@ -41,6 +41,8 @@ package main
 //	  w:ctx:T | w:ctx:n:<name> | w:ctx:o:<owner> | w:ctx:s:<t|f>   S.DeleteWhere(true | name = | owner = | isSystem =)
 //	  l:<foo>:<owner> | x:<foo>:<owner>                   peers link collection: AddLinks | RemoveLinks (bare *bbolt.Tx, no context)
 //	  r:id                                                FindById inside the transaction
+//	  z:id:del | z:id:nil | z:id:set:<name>               raw write of the `name` key of the entity bucket on the bare transaction
+//	                                                      (key deleted | nil value | string): FillEntity reads it with GetStringOrError
 //
 // Output per transaction: `<op results joined by ';'>|<view of the uncommitted state after the aborting failure>|<view after the tx>`
 // view = for every pool id `<id>=<exists>/<IsSystemEntity>/<name>/<tag k or ~>/<createdAt>/<updatedAt>/<owner>/<level or ~>/<peers>/<raw isSystem key: - absent, t, f, ?>;`
@@ -322,6 +324,9 @@ func c16Err(err error) string {
 			return "!noOwner"
 		}
 		return "!notFound"
+	case strings.Contains(msg, "non-nullable field name is null"):
+		// FillEntity could not load the stored data (c16_load.go): FindById / LoadEntity return the bucket's error
+		return "!loadErr"
 	case strings.Contains(msg, "cannot create system"):
 		return "!sysCreate"
 	case strings.Contains(msg, "already exists"):
@@ -338,7 +343,7 @@ func c16Err(err error) string {
 // c16Ignorable: the failures a keep-going body carries on after (they leave the open transaction untouched)
 func c16Ignorable(r string) bool {
 	switch r {
-	case "!notFound", "!exists", "!blank", "!sysUpdate", "!sysDelete":
+	case "!notFound", "!exists", "!blank", "!sysUpdate", "!sysDelete", "!loadErr":
 		return true
 	}
 	return false
@@ -517,6 +522,8 @@ func (e *c16Env) op(top boltz.MutateContext, op string) string {
 		return c16Err(e.peers.AddLinks(top.Tx(), fromWire(f[1]), fromWire(f[2])))
 	case "x":
 		return c16Err(e.peers.RemoveLinks(top.Tx(), fromWire(f[1]), fromWire(f[2])))
+	case "z":
+		return e.rawName(top.Tx(), f)
 	case "r":
 		ent, found, err := e.store.FindById(top.Tx(), fromWire(f[1]))
 		if err != nil {
@@ -537,7 +544,7 @@ func (e *c16Env) view(tx *bbolt.Tx, pool, opool []string) string {
 		b.WriteString(toWire(id) + "=")
 		switch {
 		case err != nil:
-			b.WriteString("error")
+			b.WriteString(e.rawView(tx, id, err))
 		case !found:
 			b.WriteString("f/////////-")
 		default:
@@ -708,6 +715,10 @@ func c16Gen(tier string, seed uint64, out *bufio.Writer) {
 	c16Indirect(out, "HBW")
 	c16NoChange(out, "HPW")
 	c16NoChange(out, "HW")
+	// entities whose stored data the strategy cannot load (c16_load.go)
+	for _, kind := range []string{"H", "HC", "HP", "HW", "HB"} {
+		c16Unloadable(out, kind)
+	}
 	n := 2500
 	if tier == "thorough" {
 		n = 50000
@@ -1039,6 +1050,11 @@ func c16History(r *rng, out *bufio.Writer) {
 			}
 			rest := c16Rest(mig, pick(r, c16Stamps), pick(r, c16Stamps), pick(r, c16Tags))
 			name := toWire(pick(r, c16Names))
+			if r.chance(1, 16) {
+				// raw write of the required field: the entity can no longer be loaded / can again (c16_load.go)
+				ops = append(ops, c16RawOp(r, id, name, strings.HasSuffix(kind, "W")))
+				continue
+			}
 			w := r.intn(100)
 			if plain && ((w >= 21 && w < 34) || (w >= 48 && w < 56) || (w >= 64 && w < 68)) {
 				// no child store in the plain shape: write-backs and plain updates instead
